@@ -9,19 +9,27 @@ package blocktimeindex
 
 func VerifC13BlocktimeLib() {
 	capacity := uint64(verifParam("capacity", 3))
+	if big := verifParam("bigcapacity", 0); big > 0 && verifChoice("capacity", 2) == 1 {
+		// a capacity whose low-order byte is zero (a cut inside the capacity field leaves 0)
+		capacity = uint64(big)
+	}
 	epochs := []uint64{0, 1, 700}
 	epoch := epochs[verifChoice("epoch", verifParam("epochs", 2))]
 	start := epoch * 432000
 	idx := NewIndexer(start, start+431999, capacity)
 	vals := make([]int64, capacity)
 	for i := range vals {
-		vals[i] = int64(verifU32("blocktime"))
+		if i < 3 || i >= len(vals)-3 {
+			vals[i] = int64(verifU32("blocktime"))
+		} else {
+			vals[i] = int64(1600000000 + 7*i) // inner slots of a large index: concrete
+		}
 		verifAssert(idx.Set(start+uint64(i), vals[i]) == nil, "C13.blocktime.lib: Set failed")
 	}
 	img, err := idx.MarshalBinary()
 	verifAssert(err == nil, "C13.blocktime.lib: MarshalBinary failed")
 	N := len(img)
-	verifAssert(N == len(magic)+32+4*int(capacity), "C13.blocktime.lib: unexpected image size")
+	verifAssert(N == 14+32+4*int(capacity), "C13.blocktime.lib: unexpected image size")
 
 	full, err := FromBytes(img)
 	verifAssert(err == nil, "C13.blocktime.lib: the complete index does not decode")
